@@ -11,6 +11,8 @@ import (
 type fold struct {
 	applied bool
 	err     *file.Error
+	// args are the array literals passed to a function or a method as they are.
+	args map[Node]bool
 }
 
 // isInt reports whether an integer literal still has the int type. The checker
@@ -21,7 +23,27 @@ func isInt(n *IntegerNode) bool {
 	return t == nil || t.Kind() == reflect.Int
 }
 
-func (*fold) Enter(*Node) {}
+// An array literal is []interface{} for the checker and a function receives it as such:
+// as an argument it is not folded into a constant []int or []string,
+// which a []interface{} parameter does not take.
+func (fold *fold) Enter(node *Node) {
+	var arguments []Node
+	switch n := (*node).(type) {
+	case *FunctionNode:
+		arguments = n.Arguments
+	case *MethodNode:
+		arguments = n.Arguments
+	}
+	for _, a := range arguments {
+		if _, ok := a.(*ArrayNode); ok {
+			if fold.args == nil {
+				fold.args = make(map[Node]bool)
+			}
+			fold.args[a] = true
+		}
+	}
+}
+
 func (fold *fold) Exit(node *Node) {
 	patch := func(newNode Node) {
 		fold.applied = true
@@ -107,7 +129,7 @@ func (fold *fold) Exit(node *Node) {
 		}
 
 	case *ArrayNode:
-		if len(n.Nodes) > 0 {
+		if len(n.Nodes) > 0 && !fold.args[n] {
 
 			for _, a := range n.Nodes {
 				if _, ok := a.(*IntegerNode); !ok {
